@@ -6,11 +6,13 @@ import SpVerif.Drive.Naming
 import SpVerif.Drive.Conflicts
 import SpVerif.Drive.Replace
 import SpVerif.Drive.DocScan
+import SpVerif.Drive.Engine
+import SpVerif.Drive.Callables
 open Lean SpVerif.Drive
 
 /-- every op of every per-property driver module: add `++ <module>Ops` here -/
 def allOps : List (String × (Json → R Json)) :=
-  namingOps ++ conflictsOps ++ replaceOps ++ docScanOps
+  namingOps ++ conflictsOps ++ replaceOps ++ docScanOps ++ engineOps ++ callablesOps
 
 def dispatch (op : String) (c : Json) : R Json :=
   match allOps.lookup op with
